@@ -65,7 +65,7 @@ Print Assumptions C08_model_dictionary_compression_lossless.
 (* ==== round 2: the three places where findings of this property lived, each as a model of the mechanism with a theorem over all
         histories / sizes and a refutation of the code as it was (fixes d50580e, 2f41a3c, dd32199) ==== *)
 From ZV.Safety Require DDictHashSet.
-From ZV.Codec Require C08Select C08DictId C08Attach.
+From ZV.Codec Require C08Select C08DictId C08Attach C08Repeat.
 
 (* ZSTD_d_refMultipleDDicts: for every hash function, every history of ZSTD_DCtx_refDDict calls (any dictIDs, raw-content DDicts with
    dictID 0 included), every active DDict and every frame dictID: never an out-of-table probe or an endless loop; the frame is decoded
@@ -143,3 +143,45 @@ Theorem C08_attach_refuted_before_fix :
   3 <= (C08Attach.prefix_start true 17000000 - 1 + C08Attach.U32 - C08Attach.rep_index curr 17000000) mod C08Attach.U32.
 Proof. exact C08Attach.attach_refuted_before_fix. Qed.
 Print Assumptions C08_attach_refuted_before_fix.
+
+(* ---- round 3: re-use of the dictionary's FSE tables by the compressor (coq/Codec/C08Repeat.v) ---- *)
+(* a table the loader marks "valid" (ZSTD_dictNCountRepeat) encodes every symbol up to the bound it was checked against *)
+Theorem C08_loader_valid_mark_covers : forall l dms maxSym s,
+  C08Repeat.ncount_repeat l dms maxSym = C08Repeat.RValid -> s <= maxSym ->
+  C08Repeat.enc {| C08Repeat.tb_cnt := l; C08Repeat.tb_max := dms |} s.
+Proof. exact C08Repeat.valid_covers. Qed.
+Print Assumptions C08_loader_valid_mark_covers.
+
+(* every offset a match of the first block can have (position p of a block of at most 128 KB, at least 3 bytes long, back to the
+   dictionary content of c bytes or to the block itself) has an offset code within the bound ZSTD_loadCEntropy checked *)
+Theorem C08_first_block_offcodes_within_loader_bound : forall c B p back,
+  c <= C08Repeat.U32MAX - C08Repeat.KB128 -> B <= C08Repeat.KB128 -> p + 3 <= B -> back <= p + c ->
+  C08Repeat.of_code back <= C08Repeat.of_bound c /\ C08Repeat.of_code back <= C08Repeat.MaxOff.
+Proof. exact C08Repeat.first_block_offcode_le. Qed.
+Print Assumptions C08_first_block_offcodes_within_loader_bound.
+
+(* offset codes: whatever the dictionary's counters, content size, strategy, block history (raw / RLE / compressed blocks) and cost
+   values, a block that re-uses the table in force (set_repeat) only contains codes that table can encode *)
+Theorem C08_dictionary_offcode_table_reuse_safe : forall strategy da dnl l dms c blocks,
+  C08Repeat.bounded C08Repeat.MaxOff (C08Repeat.of_bound c) blocks ->
+  Forall (fun x => let '(e, t, used) := x in e = C08Repeat.Repeat -> Forall (C08Repeat.enc t) used)
+         (C08Repeat.trace strategy da dnl true ({| C08Repeat.tb_cnt := l; C08Repeat.tb_max := dms |}, C08Repeat.of_mode l dms c) blocks).
+Proof. exact C08Repeat.of_table_reuse_safe. Qed.
+Print Assumptions C08_dictionary_offcode_table_reuse_safe.
+
+(* literal-length and match-length codes: same statement, no downgrade needed *)
+Theorem C08_dictionary_llml_table_reuse_safe : forall strategy da dnl l dms maxSym blocks,
+  C08Repeat.bounded maxSym maxSym blocks ->
+  Forall (fun x => let '(e, t, used) := x in e = C08Repeat.Repeat -> Forall (C08Repeat.enc t) used)
+         (C08Repeat.trace strategy da dnl false ({| C08Repeat.tb_cnt := l; C08Repeat.tb_max := dms |}, C08Repeat.ncount_repeat l dms maxSym) blocks).
+Proof. exact C08Repeat.llml_table_reuse_safe. Qed.
+Print Assumptions C08_dictionary_llml_table_reuse_safe.
+
+(* without the valid -> check downgrade after the first block the offset-code table is re-used for a code the loader never looked at *)
+Theorem C08_offcode_reuse_refuted_without_downgrade :
+  map (fun x => let '(e, t, used) := x in (e, C08Repeat.cost_ok t used))
+      (C08Repeat.trace 1 true 5 false ({| C08Repeat.tb_cnt := C08Repeat.ex_tab; C08Repeat.tb_max := 18 |}, C08Repeat.of_mode C08Repeat.ex_tab 18 1000)
+                       [C08Repeat.ex_blk [3; 5]; C08Repeat.ex_blk [3; C08Repeat.of_code 300000]])
+  = [(C08Repeat.Repeat, true); (C08Repeat.Repeat, false)].
+Proof. exact C08Repeat.no_downgrade_refuted. Qed.
+Print Assumptions C08_offcode_reuse_refuted_without_downgrade.
